@@ -12,8 +12,8 @@ use sv_parser::Error;
 
 pub fn cases(tier: Tier) -> u64 {
     match tier {
-        Tier::Quick => 12000,
-        Tier::Thorough => 300000,
+        Tier::Quick => 20000,
+        Tier::Thorough => 400000,
         Tier::Tiny => 12,
     }
 }
